@@ -302,7 +302,7 @@ func (e *c10End) Read(p []byte) (int, error) {
 	if n > len(e.in.buf) {
 		n = len(e.in.buf)
 	}
-	if n > 1 {
+	if n > 1 && e.in.frag != nil { // frag == nil: TCP semantics, a Read returns everything available
 		switch e.in.frag.Intn(4) {
 		case 0:
 			n = 1
@@ -524,7 +524,7 @@ func replayC10(c *Ctx, op string, args []string) bool {
 		}
 		c10ConnWire(c, m["cipher"], unhx(m["key"]), unhx(m["iv"]), ws, unhx(m["plain"]))
 	default:
-		return false
+		return replayC10b(c, op, m)
 	}
 	return true
 }
@@ -836,4 +836,6 @@ func genC10(c *Ctx) {
 			c10Conn(c, cn, key, iv, thr, dir, fs, pkts, true)
 		}
 	}
+
+	genC10b(c)
 }
